@@ -74,7 +74,7 @@ pub fn name_errors(name: &str) -> Vec<EK> {
             'a'..='z' | 'A'..='Z' | '0'..='9' => true,
             '$' | '%' | '\'' | '-' | '_' | '@' | '~' | '`' | '!' | '(' | ')' | '{' | '}' | '^' | '#' | '&' => true,
             '+' | ',' | ';' | '=' | '[' | ']' | '.' | ' ' => true,
-            c if (c as u32) >= 0x80 && (c as u32) <= 0xFFFF => true,
+            c if (c as u32) >= 0x80 && (c as u32) <= 0xFFFE => true, // U+FFFF is the long-name padding value
             _ => false,
         };
         if !ok {
